@@ -486,8 +486,40 @@ def register(R):
     # ---- download_file: the front end.  The downloader is started first; the transfer is registered with the monitor before its
     # request is queued (the submitter announces job counts for that id); the request and the returned future carry the SAME id
     R.mark_inline(f'{PPD}._get_transfer_future', f'{PP}:ProcessPoolTransferFuture.__init__', f'{PP}:ProcessPoolTransferMeta.__init__')
-    R.contract(f'{PPD}._validate_all_known_args', params=dict(provided=Any), raise_when={'ValueError': lambda c: None},
-               modifies=lambda c: [])
+    # the process-pool front end's own allow-list check (C15): it returns only if EVERY provided key is one of ALLOWED_DOWNLOAD_ARGS
+    # (the names themselves, not e.g. substrings of their concatenation)
+    from .a_submit import EXTRA as _EXTRA
+    from .c15 import map_view as _map_view
+    _kk = z3.String('k__')
+
+    def ppd_allowed(c):
+        eng = c.engine
+        lst = eng.module_global(eng.repo.modules['s3transfer.processpool'], 'ALLOWED_DOWNLOAD_ARGS', c.new.st)
+        names = list(c.new.st.obj(lst).items) if isinstance(lst, Ref) else list(lst[1] if isinstance(lst, tuple) and lst[0] == 'frozenlist' else lst)
+        return z3.Or([_kk == z3.StringVal(n) for n in names] + [B(False)])
+
+    def ppd_validate_post(c):
+        ap, av = _map_view(c.old.st, c.a_provided)
+        return {'returns_only_if_every_provided_key_is_on_the_allow_list': (z3.ForAll([_kk], z3.Implies(z3.Select(ap, _kk), ppd_allowed(c))), ['C15'])}
+
+    def ppd_validate_inv(l):
+        j = z3.Int('j__')
+        lst = l.engine.module_global(l.engine.repo.modules['s3transfer.processpool'], 'ALLOWED_DOWNLOAD_ARGS', l.st)
+        names = list(l.st.obj(lst).items) if isinstance(lst, Ref) else list(lst[1] if isinstance(lst, tuple) and lst[0] == 'frozenlist' else lst)
+        return {'visited_keys_are_allowed': z3.ForAll([j], z3.Implies(z3.And(j >= 0, j < l.index), z3.Or(
+            [z3.Select(l.ghost['enum'], j) == z3.StringVal(n) for n in names] + [B(False)])))}
+
+    def ppd_validate_iteration(l0, l1, evs):
+        # (ground form of the invariant step: the key of an iteration that goes on is one of the allowed names)
+        lst = l1.engine.module_global(l1.engine.repo.modules['s3transfer.processpool'], 'ALLOWED_DOWNLOAD_ARGS', l1.st)
+        names = list(l1.st.obj(lst).items) if isinstance(lst, Ref) else list(lst[1] if isinstance(lst, tuple) and lst[0] == 'frozenlist' else lst)
+        key = z3.Select(l0.ghost['enum'], l0.index if z3.is_expr(l0.index) else z3.IntVal(l0.index))
+        return {'a_key_that_passes_is_one_of_the_allowed_names': (z3.Or([key == z3.StringVal(n) for n in names] + [B(False)]), ['C15'])}
+
+    R.contract(f'{PPD}._validate_all_known_args', props=['C15'], params=dict(provided=_EXTRA),
+               ensures=ppd_validate_post, raises={'ValueError': lambda c: {'nothing_else_happened': B(not [e for e in c.trace if e.kind in ('ext', 'call')])}},
+               raise_when={'ValueError': lambda c: None}, modifies=lambda c: [],
+               loops={0: LoopSpec(invariant=ppd_validate_inv, iteration_checks=ppd_validate_iteration)})
 
     def ppd_dl_checks(c):
         tr = c.trace
@@ -518,7 +550,7 @@ def register(R):
         return out
 
     R.contract(f'{PPD}.download_file', props=['C19', 'C15'], self_type=PPD_SH, top_level=True,
-               params=dict(bucket=ExtT('str'), key=ExtT('str'), filename=ExtT('str'), extra_args=OptT(ExtT('extra_args')), expected_size=OptT(Int)),
+               params=dict(bucket=ExtT('str'), key=ExtT('str'), filename=ExtT('str'), extra_args=OptT(_EXTRA), expected_size=OptT(Int)),
                checks=ppd_dl_checks, raises={'Exception': only_propagates, 'ValueError': only_propagates})
 
     def ppd_exit_checks(c):
